@@ -3,3 +3,20 @@ package sim
 import "fmt"
 
 func keyString(k any) string { return fmt.Sprintf("%#v", k) }
+
+// runIDs renders the runnable set for log lines (only when there is a real choice).
+//
+//go:norace
+func runIDs(run []*local) string {
+	if len(run) < 2 {
+		return ""
+	}
+	s := " ["
+	for i, l := range run {
+		if i > 0 {
+			s += " "
+		}
+		s += l.id
+	}
+	return s + "]"
+}
